@@ -43,7 +43,7 @@ class CategoricalInstance(PrefLibInstance):
 
         # The first few lines contain the metadata
         i = 0
-        cat_name_pattern = re.compile(r"# CATEGORY NAME (\d+): (.*)")
+        cat_name_pattern = re.compile(r"# CATEGORY NAME (\d+): ?(.*)")
         for i in range(len(lines)):
             line = lines[i].strip()
             if line.startswith("#"):
